@@ -271,6 +271,21 @@ var c20Positions = []c20Pos{
 	{"collection-member", func(x ap.Item) ap.Item {
 		return c20Fill(&ap.OrderedCollectionPage{ID: "https://example.com/c", Type: ap.OrderedCollectionPageType}, x)
 	}},
+	{"only-list-member", func(x ap.Item) ap.Item { return ap.ItemCollection{x} }},
+	{"only-member-of-list-properties", func(x ap.Item) ap.Item {
+		// every item property holds a list whose only member is x (single-item properties hold such a list too)
+		host := &ap.Activity{ID: "https://example.com/a", Type: ap.LikeType}
+		e := reflect.ValueOf(host).Elem()
+		for _, f := range universe.ByName("Activity").ItemFields() {
+			fv := e.Field(f.Index)
+			if f.Kind == universe.KItems {
+				fv.Set(reflect.ValueOf(ap.ItemCollection{x}))
+			} else {
+				fv.Set(reflect.ValueOf(ap.ItemCollection{x}).Convert(fv.Type()))
+			}
+		}
+		return host
+	}},
 	{"long-list-member", func(x ap.Item) ap.Item { return c20Long(x, 70) }},
 	{"long-list-property", func(x ap.Item) ap.Item {
 		return &ap.OrderedCollection{ID: "https://example.com/c", Type: ap.OrderedCollectionType, OrderedItems: c20Long(x, 40), To: c20Long(x, 34), Tag: c20Long(x, 18)}
@@ -315,7 +330,7 @@ func init() {
 		ID: "C20", Name: "nil-items", Level: "model_checking",
 		Rule: "complete matrix: every helper of the table (predicates, ItemsEqual in both slots, On*/To* incl. OnCollectionIntf and the generic On/To, Flatten*, CleanRecipients, DerefItem, ItemOrderTimestamp, " +
 			"CopyItemProperties, CollectionPath.IRI/Of/AddTo, both encoders and the JSON item writers, Contains/Append/Remove/ItemsMatch on the containers) x 15 nil kinds (untyped nil + nil pointer of each struct) x " +
-			"9 positions (the argument itself, member of a short and of a 70-member list, several times in the long lists of a collection, every item property of an Object / Actor / Question / Activity / collection page at once); every case runs in isolation; non-trivial = typed nil",
+			"11 positions (the argument itself, only member of a list, only member of every list property, member of a short and of a 70-member list, several times in the long lists of a collection, every item property of an Object / Actor / Question / Activity / collection page at once); every case runs in isolation; non-trivial = typed nil",
 		Assumptions: []string{"the helper table is audited against the exported functions of the current tree on every run (gaps are listed in the evidence, not judged)",
 			"at the top position a callback must receive a nil pointer; below it callbacks are only required not to crash"},
 		Bound: func(string) string { return "complete matrix (same in both tiers)" },
@@ -375,7 +390,7 @@ func c20Audit(p *engine.Parent) error {
 		covered[extra] = true
 	}
 	fset := token.NewFileSet()
-	files, _ := filepath.Glob("/repo/*.go")
+	files, _ := filepath.Glob(repoDir() + "/*.go")
 	var gaps []string
 	total := 0
 	for _, f := range files {
